@@ -146,6 +146,37 @@ def run_conc_check(pid, tier, n_sched, n_free, race=False, assumptions=()):
             races += 1
             path = core.save_replay(pid, "conc", prog, [], "data race reported by the Go race detector", extra=dict(report=report))
             violations.append(path)
+    # vacuity control: the replayed executions must contain the situations the properties are about
+    floors = dict(wc_timeout=0, wc_closesent=0, ctl_between_fragments=0, transport_fault=0, close_by_reader=0, write_after_close_attempt=0)
+    for fn in files:
+        last_w_open = False
+        closed = False
+        for line in open(fn):
+            e = json.loads(line)
+            if e["e"] == "Reset":
+                last_w_open = False; closed = False
+            elif e["e"] == "Ret" and e["err"]["cls"] == "timeout":
+                floors["wc_timeout"] += 1
+            elif e["e"] == "Ret" and e["err"]["cls"] == "closesent":
+                floors["wc_closesent"] += 1
+            elif e["e"] == "Call" and closed:
+                floors["write_after_close_attempt"] += 1
+            elif e["e"] == "Op":
+                it = e["it"]
+                if it["t"] == "WERR" or (it["t"] == "SWD" and it.get("err")):
+                    floors["transport_fault"] += 1
+                if it["t"] == "F":
+                    if e["t"] == "W" and it["op"] < 8:
+                        last_w_open = not it["fin"]
+                    elif e["t"] != "W" and last_w_open:
+                        floors["ctl_between_fragments"] += 1
+                    if it["op"] == 8:
+                        closed = True
+                        if e["t"] == "R":
+                            floors["close_by_reader"] += 1
+    missing = [k for k, v in floors.items() if v == 0 and k in ("wc_timeout", "wc_closesent", "transport_fault", "write_after_close_attempt")]
+    if missing:
+        raise core.Infra("coverage floor not met in the replayed schedules (never observed): %s" % ", ".join(missing))
     res = core.validate("WSConcTrace.tla", "WSConcTrace.cfg", files, name)
     log("[%s] replayed %d schedules + %d free runs, validated %d traces / %d events" % (pid, len(conc), len(free), res["traces"], res["events"]))
     for rj in res["rejections"][:6]:
@@ -172,7 +203,7 @@ def run_conc_check(pid, tier, n_sched, n_free, race=False, assumptions=()):
         path = core.save_replay(pid, "conc", prog, rj["trace"], "event %d not explained by WSConc: %s" % (rj["index"], json.dumps(rj["event"])[:500]),
                                 extra=dict(reproduced=ok))
         violations.append(path)
-    cov = dict(expected_violation=dict(config="MC_Conc_mutation.cfg", invariant=mut["invariant"]), states=mc["states"] + live["states"], transitions=mc["transitions"] + live["transitions"], liveness_states=live["states"],
+    cov = dict(situations_observed=floors, expected_violation=dict(config="MC_Conc_mutation.cfg", invariant=mut["invariant"]), states=mc["states"] + live["states"], transitions=mc["transitions"] + live["transitions"], liveness_states=live["states"],
                traces_validated_against_impl=res["traces"],
                trace_events=res["events"], simulated_model_states=sim["states"], schedules_replayed=len(conc), free_runs=len(free),
                race_detector=race, races=races, evaluations=res["traces"], distinct_nontrivial=len(conc),
